@@ -24,9 +24,13 @@ def gen_cfg(quick, seed):
         edb = [0, 8, 118, 126] + r.sample(range(880), 64)
     else:
         hashb, signb, srcb, fieldb, edb = range(256), range(520), range(336), range(64), range(880)
-    return """SPECIFICATION Spec
+    keyset = ", ".join(map(str, range(1, 2001)))
+    vdeltas = ", ".join(map(str, range(1, 61)))
+    return ("""SPECIFICATION Spec
 CONSTANTS
-  DataLens = {0, 1, 2, 3, 4, 5, 6, 7, 8, 9, 10, 11, 12, 13, 14, 15, 16, 17, 18, 19, 20, 21, 22, 23, 24, 25, 26, 27, 28, 29, 30, 31, 32, 33, 34, 35, 36, 37, 38, 39, 40, 41, 42, 43, 44, 45, 46, 47, 48, 49, 50, 51, 52, 53, 54, 55, 56, 57, 58, 59, 60, 61, 62, 63, 64}
+  KeyScalars = {""" + keyset + """}
+  VDeltas = {""" + vdeltas + """}
+""" + """  DataLens = {0, 1, 2, 3, 4, 5, 6, 7, 8, 9, 10, 11, 12, 13, 14, 15, 16, 17, 18, 19, 20, 21, 22, 23, 24, 25, 26, 27, 28, 29, 30, 31, 32, 33, 34, 35, 36, 37, 38, 39, 40, 41, 42, 43, 44, 45, 46, 47, 48, 49, 50, 51, 52, 53, 54, 55, 56, 57, 58, 59, 60, 61, 62, 63, 64}
   HashBits = %s
   SignBits = %s
   SourceBits = %s
@@ -35,7 +39,7 @@ CONSTANTS
   CtxAll = %s
 INVARIANTS Theorems Dump
 CHECK_DEADLOCK FALSE
-""" % (rng_set(hashb), rng_set(signb), rng_set(srcb), rng_set(fieldb), rng_set(edb), "FALSE" if quick else "TRUE")
+""") % (rng_set(hashb), rng_set(signb), rng_set(srcb), rng_set(fieldb), rng_set(edb), "FALSE" if quick else "TRUE")
 
 
 def compact(e):
